@@ -5,8 +5,8 @@ contract (structural induction over the YAML tree), list children as symbolic se
 as structured strings; resolve_all_macros = ordered fold + name validation + final scan;
 _collect_macro_names (spec function Names@); Yaml2Regex._get_pattern / load_macros_from_args
 (extra files prepended in file order).
-Bounded part (never counted as proved): MacroArgsResolver (lazy generator over a structure that is
-being mutated) against simultaneous substitution on enumerated small bodies, and whole expansions
+Bounded part (never counted as proved): MacroArgsResolver (recursive generators over an unbounded tree whose
+yield is applied as in-place mutations by path) against simultaneous substitution on enumerated small bodies, and whole expansions
 against the reference inliner (oracle/inline.py) -- see vf/sweeps.py.
 """
 from __future__ import annotations
@@ -444,7 +444,7 @@ def collect():
     return obs
 
 
-@scenario("macros:sources", "jasm.jasm_regex.yaml2regex.Yaml2Regex._get_pattern", ["C13", "C19", "C17"],
+@scenario("macros:sources", "jasm.jasm_regex.yaml2regex.Yaml2Regex._get_pattern", ["C13", "C19", "C17", "C14", "C15", "C18", "C01"],
           inlined=["load_macros_from_args"], doc="macros from extra files are prepended, in file order, to the rule's own macros")
 def sources():
     ensure()
@@ -471,8 +471,17 @@ def sources():
                         return "EXPANDED"
                 Y.load_file = staticmethod(lambda file: {"macros": SymSeq("macros(" + file.ident + ")", Opaque("m(" + file.ident + ")"), 0)})
                 J.y2r.MacroExpander = ME2
+                # the rule's configuration as its constructor left it: obtaining the pattern must not write it
+                cfg = J.gd.JASMConfig.get_instance()
+                cfg.global_info.clear()
+                marks = {k: object() for k in ("assembly_style", "valid_addr_range", "sections", "m-full", "o-full")}
+                cfg.global_info.update(marks)
                 try:
-                    return [y._get_pattern(), list(calls), own_macros]
+                    r_ = y._get_pattern()
+                    cfg_now = J.gd.JASMConfig.get_instance()
+                    kept = cfg_now is cfg and set(cfg_now.global_info.keys()) == set(marks) and all(cfg_now.global_info[k] is v for k, v in marks.items())
+                    calls.append(("config-kept", kept, sorted(str(k) for k in cfg_now.global_info.keys())))
+                    return [r_, list(calls), own_macros]
                 finally:
                     Y.load_file = o_lf
                     J.y2r.MacroExpander = o_me
@@ -488,6 +497,12 @@ def sources():
                     obs.append(simple_ob(base + ":EXC", func, "EXC", "no exception", False, P13, detail=repr(p.value), witness="exc"))
                     continue
                 r, cl, own_macros = p.value
+                kept = [c for c in cl if isinstance(c, tuple) and c and c[0] == "config-kept"]
+                cl = [c for c in cl if not (isinstance(c, tuple) and c and c[0] == "config-kept")]
+                obs.append(simple_ob(base + ":FRAME-config", func, "FRAME",
+                                     "obtaining the pattern (reading extra macro files, expanding) writes nothing to the configuration singleton: "
+                                     "flags, style, range and sections stay those of the rule", bool(kept) and kept[0][1],
+                                     ["C14", "C15", "C18", "C01", "C13"], detail=repr(kept), witness="config-written"))
                 if files == "none" and not own:
                     ok = isinstance(r, dict) and not cl
                     obs.append(simple_ob(base + ":POST", func, "POST", "without any macro definition the pattern is not touched by the expander", ok, P13,
